@@ -208,6 +208,14 @@ VERUS_UNITS = {
             ('{ let r = removal_eff(c0, w0); despawn_eff(r.0, r.1) }', '{ let r = despawn_eff(c0, w0); removal_eff(r.0, r.1) }', 'poll_scope'),
         ],
     },
+    'dispatch_event': {
+        'template': 'dispatch_event.rs.tpl',
+        'owners': [(r'ReactCache::schedule_entity_event_reaction$', ['C05', 'C01']), (r'DataEntityCounter::new$', ['C05'])],
+        'negctl': [
+            ('Queued::SpawnData { entity: d, readers: n as usize }) + scoped_cmds(scoped, target, d) + wide_cmds(wide, target, d) }) }),', 'Queued::SpawnData { entity: d, readers: (n + 1) as usize }) + scoped_cmds(scoped, target, d) + wide_cmds(wide, target, d) }) }),', 'ReactCache::schedule_entity_event_reaction'),
+            ('final(commands).log() == (if n == 0 { old(commands).log() }', 'final(commands).log() == (if wide.len() == 0 { old(commands).log() }', 'ReactCache::schedule_entity_event_reaction'),
+        ],
+    },
     'dispatch': {
         'template': 'dispatch.rs.tpl',
         'owners': [(r'schedule_entity_reaction_impl$', ['C01', 'C14']), (r'ReactCache::schedule_(insertion|mutation)_reaction$', ['C01', 'C14'])],
@@ -273,7 +281,7 @@ ENVNOTE = 'Kani tier runs the real crate against the assumed Bevy of /verif/env 
 
 PROPS = {
     'C01': dict(category='other', design_ref='DESIGN.md 5/C01',
-        text='Registration tables as abstract maps key -> list: Verus proves on the verbatim text, for tables and lists of ANY size, that each of the 7 ReactCache::register_* functions appends exactly one handle to exactly the list named by (kind, key) and leaves every other list of every table unchanged, and that schedule_resource_mutation_reaction / schedule_broadcast_reaction queue exactly one command per entry of the trigger type\'s list, in order, with the right reactor id (and nothing for an empty list). schedule_insertion_reaction / schedule_mutation_reaction / schedule_entity_reaction_impl are likewise proved for per-entity and type-wide lists of any length (Verus, verbatim, against an assumed sequence stand-in for Vec and the assumed contract of EntityReactors::iter_rtype). schedule_despawn_reactions (Verus, verbatim, any number of reports / lists of any length): one Despawn command per handle registered for a reported entity, in list order, the list consumed by the first report, nothing for entities without list. Kani discharges on the real code, for bounded shapes, the functions outside Verus\' subset: EntityReactors::{insert,remove,count,iter_rtype,iter_reactors} (lists L<=3, all contents), schedule_entity_event_reaction, a restatement of ReactCache::revoke_* on the compiled code (the five revoke_* themselves are proved by Verus for lists of any length: neighbours keep their entries), and restates schedule_{insertion,mutation}_reaction on the compiled code (entity-scoped + type-wide listeners, wrong-kind / wrong-type entries present and not fired). Lemma L3 (Verus) lifts register/revoke contracts to arbitrary histories on one key. Level other: the schedule_* functions with Query access are bounded stand-ins; that Bevy applies the scheduling command in-line is runner/queue semantics (C02/C09, not applicable).',
+        text='Registration tables as abstract maps key -> list: Verus proves on the verbatim text, for tables and lists of ANY size, that each of the 7 ReactCache::register_* functions appends exactly one handle to exactly the list named by (kind, key) and leaves every other list of every table unchanged, and that schedule_resource_mutation_reaction / schedule_broadcast_reaction queue exactly one command per entry of the trigger type\'s list, in order, with the right reactor id (and nothing for an empty list). schedule_insertion_reaction / schedule_mutation_reaction / schedule_entity_reaction_impl are likewise proved for per-entity and type-wide lists of any length (Verus, verbatim, against an assumed sequence stand-in for Vec and the assumed contract of EntityReactors::iter_rtype). schedule_despawn_reactions (Verus, verbatim, any number of reports / lists of any length): one Despawn command per handle registered for a reported entity, in list order, the list consumed by the first report, nothing for entities without list. Kani discharges on the real code, for bounded shapes, the functions outside Verus\' subset: EntityReactors::{insert,remove,count,iter_rtype,iter_reactors} (lists L<=3, all contents), a restatement of schedule_entity_event_reaction (itself proved by Verus for lists of any length, unit dispatch_event), a restatement of ReactCache::revoke_* on the compiled code (the five revoke_* themselves are proved by Verus for lists of any length: neighbours keep their entries), and restates schedule_{insertion,mutation}_reaction on the compiled code (entity-scoped + type-wide listeners, wrong-kind / wrong-type entries present and not fired). Lemma L3 (Verus) lifts register/revoke contracts to arbitrary histories on one key. Level other: the schedule_* functions with Query access are bounded stand-ins; that Bevy applies the scheduling command in-line is runner/queue semantics (C02/C09, not applicable).',
         note=ENVNOTE + '; maps = finite partial maps (hashing not modelled); Vec as an assumed sequence stand-in in units cache_revoke / dispatch; tuple trigger bundles (macro-generated) not under contract',
         explanation='register_* x7, revoke_* x5, 4 schedule fns and the 11 trigger types proved unbounded (Verus, verbatim); EntityReactors and entity-event dispatch bounded (Kani); history lemma L3'),
     'C03': dict(category='other', design_ref='DESIGN.md 5/C03',
@@ -285,9 +293,9 @@ PROPS = {
         note=ENVNOTE + '; `unsafe` in run_initialized_system trusted; stub System = assumed contract of bevy System (run = run_unsafe + apply_deferred; exclusive run = body + flush)',
         explanation='cleanup placement complete per (exclusive?, #deferred) shape by Kani on the real function; end_* and readers proved by Verus; once() closure and tree positions not covered'),
     'C05': dict(category='other', design_ref='DESIGN.md 5/C05',
-        text='Verus proves on verbatim text: DataEntityCounter arithmetic (released at exactly the n-th of n decrements, lemma L2); try_cleanup_data_entity despawns the payload entity iff the decrement reaches 0 and is a no-op for entities that are gone or carry no counter; end_{entity_event,broadcast_event} perform exactly one such cleanup on the current event\'s data entity, end_system_event despawns its payload entity; schedule_broadcast_reaction spawns ONE payload entity whose counter equals the number of queued readers (any list length) and spawns nothing for zero listeners; cleanup_on_abort runs setup then cleanup for a skipped run; on every path of syscommand_runner on which the target cannot run now (entity gone, storage missing, callback taken at the root) exactly one cleanup_on_abort happens after the entry cleanup and nothing else, and a command whose callback is taken below the root is postponed without any cleanup (Verus, the runner verbatim); the replay closure of the runner (body verbatim, lifted to a named fn by extraction rule 14) hands every postponed entry that names the finished command back to the runner with the entry\'s OWN cleanup - so its payload is released by its own end_X or, if the target died meanwhile, by clause A - removes it from the buffer, and keeps every other entry. Kani: schedule_entity_event_reaction counter = number of queued readers (scoped + type-wide) for bounded shapes; try_cleanup_data_entity on the stub World. Not covered: release at the latest when the tree ends / root discard (runner).',
+        text='Verus proves on verbatim text: DataEntityCounter arithmetic (released at exactly the n-th of n decrements, lemma L2); try_cleanup_data_entity despawns the payload entity iff the decrement reaches 0 and is a no-op for entities that are gone or carry no counter; end_{entity_event,broadcast_event} perform exactly one such cleanup on the current event\'s data entity, end_system_event despawns its payload entity; schedule_broadcast_reaction spawns ONE payload entity whose counter equals the number of queued readers (any list length) and spawns nothing for zero listeners; cleanup_on_abort runs setup then cleanup for a skipped run; on every path of syscommand_runner on which the target cannot run now (entity gone, storage missing, callback taken at the root) exactly one cleanup_on_abort happens after the entry cleanup and nothing else, and a command whose callback is taken below the root is postponed without any cleanup (Verus, the runner verbatim); the replay closure of the runner (body verbatim, lifted to a named fn by extraction rule 14) hands every postponed entry that names the finished command back to the runner with the entry\'s OWN cleanup - so its payload is released by its own end_X or, if the target died meanwhile, by clause A - removes it from the buffer, and keeps every other entry. schedule_entity_event_reaction (Verus, verbatim modulo extraction rule 18, lists of any length): nothing is spawned for zero listeners, otherwise ONE payload entity whose counter is exactly the number of EntityEvent commands queued after it (entity-scoped + type-wide), each naming that payload entity; Kani restates this on the compiled code for bounded shapes, and checks try_cleanup_data_entity on the stub World. Not covered: release at the latest when the tree ends / root discard (runner).',
         note=ENVNOTE,
-        explanation='counter, cleanup, broadcast scheduling proved by Verus (unbounded); entity-event scheduling bounded (Kani); runner paths not covered'),
+        explanation='counter, cleanup, broadcast and entity-event scheduling proved by Verus (unbounded; entity-event restated by Kani, bounded); runner abort/postpone/replay-step clauses proved (Verus); whole-tree release not covered'),
     'C06': dict(category='other', design_ref='DESIGN.md 5/C06',
         text='Verus proves on the verbatim revoke_reactor / revoke_entity_reactor, for tokens of ANY length, that every element of the token is processed, in order, by exactly the revocation its kind names (right table, right key, right reaction type, the token\'s id), entity-scoped elements being skipped - not aborting the walk - when the entity is gone. The per-table revocations assumed there are themselves proved for lists of ANY length: all five ReactCache::revoke_* remove exactly the first entry of the id from the named list, keep every other entry, leave sibling lists / other keys / other tables untouched, are a no-op for an absent id or key, and drop the map entry exactly when its lists are empty (Verus, verbatim modulo two stated normalizations: Vec as an assumed sequence stand-in whose iter().enumerate() Verus\' for-loops understand, and `if C { continue; } REST` read as `if C {} else { REST }`); the same contract is discharged on the compiled code with std\'s Vec by Kani for lists of length 0..4 (multiset comparison); EntityReactors::remove deletes exactly the (type, id) matches (Kani, L<=4). Lemma L3 (Verus): over any history on one key, the number of live entries of an id is registrations minus effective revocations, other ids unaffected.',
         note=ENVNOTE + '; the assumed effects of the callees in unit `revoke` are uninterpreted functions - their meaning is fixed by the Kani contracts, the correspondence is by review',
